@@ -479,6 +479,7 @@ func buildPrio(c Cfg) *explore.Scenario {
 }
 
 type prioEnv struct {
+	getOut  func() // lazyacc: called by every consumer before its first receive
 	recv    func() (uint, Item, bool)
 	release func(p uint)
 }
@@ -587,16 +588,39 @@ func newPrio(c Cfg, w *vrt.World) *explore.Instance {
 				newErr = err
 				return
 			}
-			out := d.Output()
-			m.out = vrt.NameChan(out, "out")
-			m.errc = vrt.NameChan(d.Err(), "err")
+			var out <-chan types2.Prioritized[Item]
+			lazy := false
+			if c.LazyAcc {
+				// nobody has called an accessor yet: the monitors learn the channels from
+				// the object, every consumer obtains them itself, concurrently
+				m.out, m.errc = vrt.PeekChan(d, "output", "out"), vrt.PeekChan(d, "err", "err")
+				lazy = m.out != nil && m.errc != nil
+			}
+			if lazy {
+				env.getOut = func() {
+					o := d.Output()
+					if vrt.StateOf(o) != m.out {
+						m.f.fail("C02", "Output() returned a channel other than the one the discipline writes to")
+					}
+					out = o
+				}
+				vrt.Spawn("observer", func() {
+					env.getOut()
+					if vrt.StateOf(d.Err()) != m.errc {
+						m.f.fail("C07", "Err() returned a channel other than the one the discipline reports on")
+					}
+				})
+			} else {
+				out = d.Output()
+				m.out = vrt.NameChan(out, "out")
+				m.errc = vrt.NameChan(d.Err(), "err")
+			}
 			env.recv = func() (uint, Item, bool) {
 				v, ok := vrt.Recv2(out)
 				return v.Priority, v.Item, ok
 			}
 			env.release = d.Release
-			errs := d.Err()
-			spawnErrReader(m, errs)
+			spawnErrReader(m, d.Err)
 		case "s2":
 			handle := func(it Item) {
 				if !it.Live {
@@ -620,10 +644,20 @@ func newPrio(c Cfg, w *vrt.World) *explore.Instance {
 				newErr = err
 				return
 			}
-			errs := d.Err()
-			m.errc = vrt.NameChan(errs, "err")
+			if c.LazyAcc {
+				m.errc = vrt.PeekChan(d, "err", "err")
+			}
+			if m.errc == nil {
+				m.errc = vrt.NameChan(d.Err(), "err")
+			} else {
+				vrt.Spawn("observer", func() {
+					if vrt.StateOf(d.Err()) != m.errc {
+						m.f.fail("C07", "Err() returned a channel other than the one the discipline reports on")
+					}
+				})
+			}
 			m.out = nil
-			spawnErrReader(m, errs)
+			spawnErrReader(m, d.Err)
 		case "v1":
 			output := vrt.MakeChan[prio1.Prioritized[Item]](c.OutCap)
 			feedback := vrt.MakeChan[uint](c.FbCap)
@@ -646,14 +680,13 @@ func newPrio(c Cfg, w *vrt.World) *explore.Instance {
 			v1.graceful, v1.stop = d.GracefulStop, d.Stop
 			v1.add = func(ch <-chan Item, p uint) { d.AddInput(ch, p) }
 			v1.remove = d.RemoveInput
-			errs := d.Err()
-			m.errc = vrt.NameChan(errs, "err")
+			m.errc = vrt.NameChan(d.Err(), "err")
 			env.recv = func() (uint, Item, bool) {
 				v, ok := vrt.Recv2(output)
 				return v.Priority, v.Item, ok
 			}
 			env.release = func(p uint) { vrt.Send(feedback, p) }
-			spawnErrReader(m, errs)
+			spawnErrReader(m, d.Err)
 		case "s1":
 			handle := func(ctx vcontext.Context, it Item) {
 				if !it.Live {
@@ -692,9 +725,8 @@ func newPrio(c Cfg, w *vrt.World) *explore.Instance {
 				return
 			}
 			v1.graceful, v1.stop = d.GracefulStop, d.Stop
-			errs := d.Err()
-			m.errc = vrt.NameChan(errs, "serr")
-			spawnErrReader(m, errs)
+			m.errc = vrt.NameChan(d.Err(), "serr")
+			spawnErrReader(m, d.Err)
 		default:
 			panic("prio harness: unknown discipline " + c.Disc)
 		}
@@ -757,6 +789,9 @@ func newPrio(c Cfg, w *vrt.World) *explore.Instance {
 			}
 			for h := 0; h < k; h++ {
 				th := vrt.Spawn("handler", func() {
+					if env.getOut != nil {
+						env.getOut()
+					}
 					for {
 						vrt.Mark(1)
 						p, _, ok := env.recv()
@@ -779,6 +814,9 @@ func newPrio(c Cfg, w *vrt.World) *explore.Instance {
 			}
 		default: // rr
 			vrt.Spawn("receiver", func() {
+				if env.getOut != nil {
+					env.getOut()
+				}
 				for {
 					vrt.Mark(1)
 					p, _, ok := env.recv()
@@ -855,8 +893,15 @@ func newPrio(c Cfg, w *vrt.World) *explore.Instance {
 			if !v1.scriptDone {
 				return false
 			}
-			for i := 0; i < np; i++ {
-				if _, registered := m.reg[m.origin[i]]; registered && !endlessIn(i) && m.nextSeq[i] != nOf(i) {
+			for i := 0; i < len(m.nextSeq); i++ {
+				st := m.origin[i]
+				if st == nil {
+					continue
+				}
+				if _, registered := m.reg[st]; !registered || (i < np && endlessIn(i)) {
+					continue
+				}
+				if (i < np && m.nextSeq[i] != nOf(i)) || (i >= np && m.nextSeq[i] != m.written[i]) {
 					return false
 				}
 			}
@@ -1134,7 +1179,24 @@ func (d *dividerWrap) maybeFault(priorities []uint, dividend uint, distribution 
 	for _, v := range distribution {
 		sum += v
 	}
-	switch vrt.Choose(3) {
+	switch vrt.Choose(4) {
+	case 3: // the excess goes to a key that is not in the list of this call: a configured
+		// priority that is absent from it (crowded or without data), else a foreign key
+		key := m.cfg.P[0] + 7
+		for _, q := range m.cfg.P {
+			listed := false
+			for _, p := range priorities {
+				if p == q {
+					listed = true
+				}
+			}
+			if !listed {
+				key = q
+				break
+			}
+		}
+		distribution[key]++
+		m.faulted, m.faultKind = m.divCalls, 3
 	case 1: // over-allocate
 		distribution[priorities[0]]++
 		m.faulted, m.faultKind = m.divCalls, 1
@@ -1152,11 +1214,12 @@ func (d *dividerWrap) maybeFault(priorities []uint, dividend uint, distribution 
 	}
 }
 
-func spawnErrReader(m *prioMon, errs <-chan error) {
+func spawnErrReader(m *prioMon, get func() <-chan error) {
 	if m.cfg.NoErr {
 		return // the user never looks at Err() (documented as optional)
 	}
 	vrt.Spawn("errreader", func() {
+		errs := get()
 		for {
 			e, ok := vrt.Recv2(errs)
 			if !ok {
